@@ -83,9 +83,12 @@ def c04_job(chk, rng, i):
     if ("f" in tb or "F" in tb) and inter is True:
         inter = False       # documented: -Cf/-CF cannot be interactive
     fl = rotate(i, FLAV3)
+    # %array: the token is copied into yytext[], NUL bytes included
+    array = (i % 5 in (1, 3))
     cfg = {"flavour": fl, "flexargs": lib.tables_args(tb, p["bits"]),
-           "opts": {"interactive": inter}}
-    feats = ["tables:" + (tb or "default"), "mode:" + str(inter), "bits:%d" % p["bits"]]
+           "opts": {"interactive": inter, "array": array}}
+    feats = ["tables:" + (tb or "default"), "mode:" + str(inter), "bits:%d" % p["bits"],
+             "array" if array else "pointer"]
     return {"case": case, "configs": [cfg], "inputs": inputs, "skip_if": dangerous,
             "features": feats, "expect_build": std_refusals(tb)}
 
